@@ -193,7 +193,7 @@ LAYOUT_TEMPLATES = [
 
 REF_KINDS = ["none", "inline", "external_rel", "external_abs", "missing", "eisdir", "eacces", "bad_base64",
              "bad_json", "garbage_file", "index_inline", "index_external", "empty_url", "no_comma", "charset_inline",
-             "block_comment", "two_comments", "huge", "empty_file", "comment_midfile", "long_missing", "long_external", "first_after_code", "percent_missing"]
+             "block_comment", "two_comments", "huge", "empty_file", "comment_midfile", "long_missing", "long_external", "first_after_code", "percent_missing", "dotdot_external"]
 
 # 63 ASCII bytes, then a two-byte character straddling byte 64
 LONG_URL = "m" * 63 + "\u00e9/\u4e2d\u6587-bundle.js.map"
@@ -227,6 +227,18 @@ def make_case(rng, code, kind, chain, comments, style, file="/w/src/app.js", par
         ref = "//# sourceMappingURL=/maps/app.js.map"
         reader["files"]["/maps/app.js.map"] = {"kind": "ok", "content": omap_text}
         usable = True
+    elif kind == "dotdot_external":
+        # a reference that climbs out of the file's folder -- for a bare file name, above the working directory.
+        # The map it names is usable; a DIFFERENT map sits where the reference would lead with its leading
+        # `..` dropped
+        ref = "//# sourceMappingURL=../maps/app.js.map"
+        real = os.path.join(d, "../maps/app.js.map")
+        for k in {real, os.path.normpath(real)}:
+            reader["files"][k] = {"kind": "ok", "content": omap_text}
+        decoy = json.dumps({"version": 3, "sources": ["decoy/other.ts"], "names": [], "mappings": "AAAA;AACA;AACA;AACA;AACA;AACA"})
+        if not file.endswith("/"):
+            reader["files"][os.path.join(d, "maps/app.js.map")] = {"kind": "ok", "content": decoy}
+        usable = parent != "none" or None
     elif kind == "missing":
         ref = "//# sourceMappingURL=nowhere.map"
         if parent != "none" and file.startswith("/") and d not in ("", "/") and not file.endswith("/"):
